@@ -18,7 +18,7 @@ mod c04;
 mod c05;
 #[cfg(all(kani, feature = "c06"))]
 mod c06;
-#[cfg(all(kani, feature = "c07"))]
+#[cfg(all(kani, any(feature = "c07", feature = "c17")))]
 mod c07;
 #[cfg(all(kani, feature = "c08"))]
 mod c08;
